@@ -54,7 +54,7 @@ META = dict(
     ],
     need=["cov_compare", "mean_compare", "affine_compare", "refine_compare", "generic_sample_compare",
           "generic_cov_compare", "model_compare", "vanloan_selfcheck"],
-    quick=dict(cases=480, workers=6, budget_s=60),
+    quick=dict(cases=360, workers=6, budget_s=60),
     thorough=dict(cases=12000, workers=16, budget_s=700),
     design_ref="DESIGN.md §5 C29",
     level_text=("exact (no sampling) comparison of complete grid covariances for generated grids and "
@@ -72,6 +72,7 @@ def init(ck):
     import nifty.re as jft
     from nifty.re import gauss_markov as gm
     H.silence_nifty_logger()
+    H.enable_compile_cache()
     ck.state.update(jax=jax, jnp=jnp, jft=jft, gm=gm)
 
 
@@ -188,8 +189,9 @@ def jac_and_zero(S, f, xi_tmpl):
 
 
 # --------------------------------------------------------------------------- cases
-# slot = i % 6: with 6 workers dealing indices round-robin every worker process sees one slot
-# only (bounded number of eagerly compiled kernels per process)
+# slot rotates with the round number i // 6: the first round already covers all slots (one per
+# worker when 6 workers deal the indices round-robin) and every worker cycles through all of them,
+# so that all monitors are reached early even on a heavily loaded machine
 SLOTS = [["fn_wiener", "model_wiener"], ["fn_iwp"], ["fn_ou"], ["gen_special", "gen_random"],
          ["model_iwp"], ["model_ou"]]
 
@@ -197,8 +199,9 @@ SLOTS = [["fn_wiener", "model_wiener"], ["fn_iwp"], ["fn_ou"], ["gen_special", "
 def case(ck, i):
     S = ck.state
     rng = ck.rng()
-    slot = SLOTS[i % len(SLOTS)]
-    kind = slot[(i // len(SLOTS)) % len(slot)]
+    rnd = i // len(SLOTS)
+    slot = SLOTS[(i + rnd) % len(SLOTS)]
+    kind = slot[(rnd // 2) % len(slot)] if len(slot) > 1 else slot[0]
     nb = NB if not ck.thorough() else list(range(1, 13))
     n = int(nb[int(rng.integers(0, len(nb)))])
     if kind.startswith("fn_"):
